@@ -384,18 +384,40 @@ func (e *Executor) startExecution(ctx context.Context, t *ast.Task, execute func
 		reacquire := e.releaseConcurrencyLimit()
 		defer reacquire()
 
+		// Wait for the one real execution to finish and observe its outcome
 		<-otherExecutionCtx.Done()
+		var failed *executionFailedError
+		if errors.As(context.Cause(otherExecutionCtx), &failed) {
+			return failed.err
+		}
 		return nil
 	}
+
+	// The registered context is independent of the caller's context: it is done
+	// only when the execution has finished, and carries its error as the cause.
+	executionCtx, finish := context.WithCancelCause(context.Background())
+	e.executionHashes[h] = executionCtx
+	e.executionHashesMutex.Unlock()
 
 	ctx, cancel := context.WithCancel(ctx)
 	defer cancel()
 
-	e.executionHashes[h] = ctx
-	e.executionHashesMutex.Unlock()
-
-	return execute(ctx)
+	err = execute(ctx)
+	if err != nil {
+		finish(&executionFailedError{err: err})
+	} else {
+		finish(nil)
+	}
+	return err
 }
+
+// executionFailedError is the cancellation cause of the context registered for a
+// deduplicated execution that ended with an error.
+type executionFailedError struct {
+	err error
+}
+
+func (e *executionFailedError) Error() string { return e.err.Error() }
 
 // FindMatchingTasks returns a list of tasks that match the given call. A task
 // matches a call if its name is equal to the call's task name or if it matches
